@@ -3,8 +3,9 @@
 //   1. classify(): is it a well-formed reply in the narrow sense every real server output satisfies (STRICT), and
 //      if so which A / CNAME records does its answer section carry;  if not, where is the first malformation;
 //   2. accepts(): could a given reported (A list, CNAME list) have been read out of this datagram at all - i.e. is
-//      each list an in-order sub-sequence of the answer records that are completely present in the datagram, under
-//      every defensible reading of an inconsistent RDLENGTH (the matcher branches over them);
+//      each list an in-order sub-sequence of the answer records that are completely present in the datagram, every record
+//      being framed by its RDLENGTH (slack behind an address or a CNAME's name is opaque; only where a CNAME's name runs
+//      past its RDATA are both continuations tolerated);
 //   3. chain_depth(): how many compression pointers does following any name in the datagram take (the harness
 //      isolates datagrams with long or cyclic chains in a child process).
 #ifndef VERIF_C15_REF_HPP
@@ -121,6 +122,10 @@ struct Info {
     bool has_id = false, has_flags = false, has_header = false;
     uint16_t id = 0, flags = 0, qd = 0, an = 0, ns = 0, ar = 0;
     bool strict = false;           //! narrow well-formed reply (see strict rules below)
+    bool framed = false;           //! all four sections parse under RDLENGTH framing and end exactly at the end of the datagram
+                                   //! (strict, or kept out of strict only by a soft reason such as slack behind a CNAME's name):
+                                   //! a, c are then THE reading of the answer section
+    unsigned n_slack_cname = 0;    //! answer-section CNAMEs whose RDLENGTH exceeds their name
     std::string why;               //! "ok" or the first thing that keeps it from being strict
     std::vector<RecA> a;           //! answer-section A records (valid when strict)
     std::vector<RecC> c;           //! answer-section CNAME records (valid when strict)
@@ -193,7 +198,10 @@ inline Info classify(const uint8_t *p, size_t n) {
                 Name cn = decode_name(p, n, off);
                 if (!cn.ok) { r.why = std::string(sn) + "-cname-" + cn.why; return r; }
                 name_checks(cn);
-                if (cn.end != off + rdlen) { r.why = std::string(sn) + "-cname-rdlength-mismatch"; return r; }
+                // RDLENGTH frames the record: a name that runs past it is malformed; a name that ends before it leaves opaque
+                // slack bytes that belong to this record and to nothing else (the next record starts at RDATA + RDLENGTH)
+                if (cn.end > off + rdlen) { r.why = std::string(sn) + "-cname-overruns-rdata"; return r; }
+                if (cn.end < off + rdlen) { softfail("cname-rdlength-longer-than-name"); if (sec == 0) ++r.n_slack_cname; }
                 if (sec == 0) { RecC c; c.ttl = ttl; c.name = cn.text; c.rdata_off = off; r.c.push_back(c); }
             } else {
                 if (sec == 0) ++r.n_other;
@@ -202,6 +210,7 @@ inline Info classify(const uint8_t *p, size_t n) {
         }
     }
     if (off != n) { r.why = "trailing-bytes"; return r; }
+    r.framed = true;
     if (soft) { r.why = softwhy; return r; }
     r.strict = true;
     r.why = "ok";
@@ -241,16 +250,14 @@ struct Matcher {
             ++i;
             if (type == 1) {
                 // an address is encoded only if the record's own RDATA holds at least 4 bytes inside the datagram
-                if (rdlen < 4 || off + 4 > n) return false;
+                // and the next record starts where RDLENGTH says: bytes behind the address are opaque, never a record
+                if (rdlen < 4 || off + rdlen > n) return false;
                 if (ja < ra.size() && ra[ja].ttl == ttl && memcmp(ra[ja].ip, p + off, 4) == 0) ++ja;
-                size_t nx1 = off + 4, nx2 = off + rdlen;
-                if (nx2 > n || nx2 == nx1) { off = nx1; continue; }
-                if (!seen.insert(std::make_tuple(nx2, i, ja, jc)).second) { off = nx1; continue; }
-                if (walk(nx2, i, an, ja, jc)) return true;
-                off = nx1;
+                off += rdlen;
                 continue;
             }
             if (type == 5) {
+                if (off + rdlen > n) return false;
                 Name cn = decode_name(p, n, off);
                 if (!cn.ok) return false;
                 if (jc < rc.size() && rc[jc].ttl == ttl) {
@@ -258,7 +265,9 @@ struct Matcher {
                     else if (norm_name(rc[jc].name) == norm_name(nul_cut_labels(p, n, off))) nul_cut_would_match = true;
                 }
                 size_t nx1 = cn.end, nx2 = off + rdlen;
-                if (nx2 > n || nx2 == nx1) { off = nx1; continue; }
+                // name ends inside its RDATA (exactly, or leaving slack): RDLENGTH frames the record, the slack is opaque
+                if (nx1 <= nx2) { off = nx2; continue; }
+                // name runs past its RDATA (malformed): either continuation is tolerated
                 if (!seen.insert(std::make_tuple(nx2, i, ja, jc)).second) { off = nx1; continue; }
                 if (walk(nx2, i, an, ja, jc)) return true;
                 off = nx1;
